@@ -24,7 +24,8 @@ theorem okGS_exprS_inv (fr il rt : Bool) (sp : Span) (e : Expr) (h : Frag.okFS f
       Frag.okFBS fr il rt c = true) ∨
     (∃ msp ty c arms db, e = .matchE msp ty c arms (some (.blockE db)) ∧ ty.isNull = true ∧ Frag.okGE c = true ∧
       Frag.okFArmsS fr il rt arms = true ∧ Frag.okFBS fr il rt db = true) ∨
-    (∃ asp op isp ity b i r, e = .assign asp op (.index isp ity b i) r) := by
+    (∃ asp op isp ity b i r, e = .assign asp op (.index isp ity b i) r) ∨
+    (∃ asp op msp mty b name r, e = .assign asp op (.member msp mty b name .dot) r) := by
   cases e <;> try (simp [Frag.okFS] at h; done)
   case matchE msp ty c arms dflt =>
     right; right; right; right; right; left
@@ -38,8 +39,12 @@ theorem okGS_exprS_inv (fr il rt : Bool) (sp : Span) (e : Expr) (h : Frag.okFS f
   case assign asp op l r =>
     cases l <;> try (cases op <;> simp [Frag.okFS] at h; done)
     case index isp ity b i =>
-      right; right; right; right; right; right
+      right; right; right; right; right; right; left
       exact ⟨asp, op, isp, ity, b, i, r, rfl⟩
+    case member msp mty b name mop =>
+      cases mop <;> try (cases op <;> simp [Frag.okFS] at h; done)
+      right; right; right; right; right; right; right
+      exact ⟨asp, op, msp, mty, b, name, r, rfl⟩
     left
     cases op
     · rename_i isp ity name isGlobal isFn isSing
@@ -369,7 +374,18 @@ theorem pgs_step (G : GCtx) (hG : G.OK') (n : Nat) (hPE : ∀ m, m ≤ n → PE 
     rcases okGS_exprS_inv _ _ _ sp e hs with ⟨asp, op, isp, ity, name, isFn, r, rfl, hr, hlog⟩ |
       ⟨isp, ty, cnd, t, eb, rfl, hty, hcnd, ht, heb⟩ | ⟨isp, ty, cnd, t, rfl, hty, hcnd, ht⟩ |
       ⟨csp, cty, isp, ity, name, g, f, si, args, sw, rfl, hcall⟩ | ⟨tsp, tty, tb, ci, cb, rfl, htty, htb, hcb⟩ |
-      ⟨msp, mty, mc, arms, db, rfl, hmty, hmc, hmarms, hmdb⟩ | ⟨asp, op, isp, ity, b, i, r, rfl⟩
+      ⟨msp, mty, mc, arms, db, rfl, hmty, hmc, hmarms, hmdb⟩ | ⟨asp, op, isp, ity, b, i, r, rfl⟩ |
+      ⟨asp, op, msp, mty, b, name, r, rfl⟩
+    rotate_right
+    · -- `o.f = e`, `o.f op= e`
+      rw [evalStmt_exprS]
+      match n, hPE with
+      | 0, _ => rw [evalExpr]; trivial
+      | 1, _ => rw [evalExpr_assign_gen, evalPlace]; trivial
+      | n' + 2, hPE =>
+      exact SimGS.exprS _ (memAssign_step G n' (px_all G n' (fun m hm => hPE m (by omega)))
+        (px_all G (n' + 1) (fun m hm => hPE m (by omega))) A hA loops lscopes d sp asp op msp mty b name r env spec ip stk mem
+        hs hT hws hpl hls hrel hsp)
     rotate_right
     · -- `l[i] = e`, `l[i] op= e`
       rw [evalStmt_exprS]
